@@ -6,7 +6,7 @@ import torch as tn
 import numpy as np
 import torchtt 
 import datetime
-from torchtt._decomposition import QR, SVD, rank_chop, lr_orthogonal, rl_orthogonal
+from torchtt._decomposition import QR, SVD, rank_chop, snorm, lr_orthogonal, rl_orthogonal
 from torchtt._iterative_solvers import BiCGSTAB_reset, gmres_restart
 import opt_einsum as oe
 
@@ -233,7 +233,7 @@ def function_interpolate(function, x, eps = 1e-9, start_tens = None, nswp = 20, 
     
             # split the super core with svd
             U,S,V = SVD(supercore)
-            rnew = rank_chop(S.cpu().numpy(),tn.linalg.norm(S).cpu().numpy()*eps/np.sqrt(d-1))+1
+            rnew = rank_chop(S.cpu().numpy(),snorm(S).cpu().numpy()*eps/np.sqrt(d-1))+1
             rnew = min(S.shape[0],rnew)
             U = U[:,:rnew] 
             S = S[:rnew]
@@ -327,7 +327,7 @@ def function_interpolate(function, x, eps = 1e-9, start_tens = None, nswp = 20, 
              
             # split the super core with svd
             U,S,V = SVD(supercore)
-            rnew = rank_chop(S.cpu().numpy(),tn.linalg.norm(S).cpu().numpy()*eps/np.sqrt(d-1))+1
+            rnew = rank_chop(S.cpu().numpy(),snorm(S).cpu().numpy()*eps/np.sqrt(d-1))+1
             rnew = min(S.shape[0],rnew)
             U = U[:,:rnew] 
             S = S[:rnew]
@@ -525,7 +525,7 @@ def dmrg_cross(function, N, eps = 1e-9, nswp = 10, x_start = None, kick = 2, dty
     
             # split the super core with svd
             U,S,V = SVD(supercore)
-            rnew = rank_chop(S.cpu().numpy(),tn.linalg.norm(S).cpu().numpy()*eps/np.sqrt(d-1))+1
+            rnew = rank_chop(S.cpu().numpy(),snorm(S).cpu().numpy()*eps/np.sqrt(d-1))+1
             rnew = min(S.shape[0],rnew)
             U = U[:,:rnew] 
             S = S[:rnew]
@@ -606,7 +606,7 @@ def dmrg_cross(function, N, eps = 1e-9, nswp = 10, x_start = None, kick = 2, dty
              
             # split the super core with svd
             U,S,V = SVD(supercore)
-            rnew = rank_chop(S.cpu().numpy(),tn.linalg.norm(S).cpu().numpy()*eps/np.sqrt(d-1))+1
+            rnew = rank_chop(S.cpu().numpy(),snorm(S).cpu().numpy()*eps/np.sqrt(d-1))+1
             rnew = min(S.shape[0],rnew)
             U = U[:,:rnew] 
             S = S[:rnew]
